@@ -1780,7 +1780,13 @@ impl Value {
                     // The default behavior is to try to index into the iterable
                     // as if nth() was called.  This lets one slice an array and
                     // then index into it.
-                    if let Some(idx) = index(key, || dy.enumerator_len()) {
+                    // a negative index counts from the end: iterables that do
+                    // not know their length are counted by iterating them.
+                    let len = || {
+                        dy.enumerator_len()
+                            .or_else(|| dy.try_iter().map(|iter| iter.count()))
+                    };
+                    if let Some(idx) = index(key, len) {
                         if let Some(mut iter) = dy.try_iter() {
                             if let Some(rv) = iter.nth(idx) {
                                 return Some(rv);
